@@ -664,3 +664,76 @@ func gStamp(c *Check) {
 		c.Result(ok, rule+".callers", "caller of raftLog.append", fnName(cs.Caller), p.site(cs.Instr), "only appendEntry, maybeAppend and Bootstrap append to the log", "caller "+fnName(cs.Caller))
 	}
 }
+
+// C04.N — a new leader appends an empty entry of its own term after resetting
+// its per-term state.
+func c04Noop(c *Check) {
+	p := c.P
+	becomeLeader := p.Method("raft", "raft", "becomeLeader")
+	appendEntry := p.Method("raft", "raft", "appendEntry")
+	reset := p.Method("raft", "raft", "reset")
+	entryT := p.Type("raftpb", "Entry")
+	if becomeLeader == nil || appendEntry == nil || reset == nil {
+		return
+	}
+	fi := p.Info(becomeLeader)
+	n := 0
+	for _, ci := range p.CallsIn(becomeLeader, appendEntry) {
+		n++
+		site := p.site(ci)
+		okMust := mustPass(fi, ci)
+		okOrder := false
+		for _, rc := range p.CallsIn(becomeLeader, reset) {
+			if fi.InstrDominates(rc, ci) {
+				okOrder = true
+			}
+		}
+		c.Result(okMust && okOrder, "C04.N", "becomeLeader appends its no-op", fnName(becomeLeader), site, "appendEntry is called on every path, after reset", fmt.Sprintf("mustPass=%v afterReset=%v", okMust, okOrder))
+		// the argument is a fresh entry without payload or type
+		_, elems, spread, ok := variadicArgs(ci)
+		okLit := ok && spread == nil && len(elems) == 1
+		detail := ""
+		if okLit {
+			al, isAl := elems[0].(*ssa.Alloc)
+			okLit = isAl
+			for _, lit := range p.Lits(entryT) {
+				if isAl && lit.Alloc == al {
+					for k, v := range lit.Fields {
+						s := fi.Sym(v)
+						if k == "Data" && s.K == KNil {
+							continue
+						}
+						okLit = false
+						detail += k + " set; "
+					}
+				}
+			}
+		}
+		c.Result(okLit, "C04.N", "no-op entry is empty", fnName(becomeLeader), site, "a fresh pb.Entry with no Data and no Type (EntryNormal)", detail)
+	}
+	c.Result(n == 1, "C04.N", "becomeLeader appends exactly one entry", fnName(becomeLeader), p.Pos(becomeLeader.Pos()), "one appendEntry call", fmt.Sprint(n))
+}
+
+// variadicArgs decomposes the last (variadic) argument of a call.
+func variadicArgs(ci ssa.CallInstruction) (base ssa.Value, elems []ssa.Value, spread ssa.Value, ok bool) {
+	args := callArgs(ci)
+	if len(args) == 0 {
+		return nil, nil, nil, false
+	}
+	last := args[len(args)-1]
+	if sl, isSl := last.(*ssa.Slice); isSl {
+		if al, isAl := sl.X.(*ssa.Alloc); isAl {
+			for _, ref := range *al.Referrers() {
+				if ia, ok := ref.(*ssa.IndexAddr); ok {
+					for _, r2 := range *ia.Referrers() {
+						if st, ok := r2.(*ssa.Store); ok && st.Addr == ia {
+							elems = append(elems, st.Val)
+						}
+					}
+				}
+			}
+			return nil, elems, nil, true
+		}
+	}
+	return nil, nil, last, true
+}
